@@ -140,7 +140,7 @@ class AndersonCD(BaseSolver):
 
             # re init AA at every iter to consider ws
             accelerator = AndersonAcceleration(K=5)
-            w_acc[:] = 0.
+            w_acc[:] = w  # coefficients outside ws are not extrapolated
             # ws to be used in AndersonAcceleration
             ws_intercept = np.append(ws, -1) if self.fit_intercept else ws
 
@@ -170,6 +170,11 @@ class AndersonCD(BaseSolver):
                     w[ws_intercept], Xw)
 
                 if is_extrap:  # avoid computing p_obj for un-extrapolated w, Xw
+                    # the extrapolated model fit drifts from X @ w_acc when the
+                    # extrapolation coefficients are large: recompute it from (w, Xw)
+                    Xw_acc[:] = Xw + X[:, ws] @ (w_acc[ws] - w[ws])
+                    if self.fit_intercept:
+                        Xw_acc += w_acc[-1] - w[-1]
                     # TODO : manage penalty.value(w, ws) for weighted Lasso
                     p_obj = (datafit.value(y, w[:n_features], Xw) +
                              penalty.value(w[:n_features]))
